@@ -254,7 +254,7 @@ def cases(rng, tier):
         forms = v6_forms(rng, ip, ln)
         for f in forms:
             w = wrap(rng, f)
-            if len(w) > 43 and rng.random() < 0.8:   # longer inputs are refused unread (known finding F32): keep them rare
+            if len(w) > 43 and rng.random() < 0.8:   # longer inputs are refused unread (known finding F33): keep them rare
                 w = f
             yield mk("v6s", w, [ip, ln])
         f = rng.choice(forms)
@@ -278,10 +278,10 @@ def neighbours(case, rng):
 
 
 def known_id(case, failure):
-    """F32: the 43-character guard of IPv6Obj is applied to the raw input."""
+    """F33: the 43-character guard of IPv6Obj is applied to the raw input."""
     if case["op"] in ("v6s", "v6c") and len(case["arg"]) > 43 and failure.startswith("valid ") \
             and failure.endswith("rejected with err:RequirementFailure"):
-        return "F32"
+        return "F33"
     return None
 
 
